@@ -10,6 +10,7 @@ from ..r_keys import rule_fresh_keys
 from ..r_hygiene import rule_hygiene as _rule_hygiene
 from ..r_rings import rule_tentative_rollback as _rule_rollback
 from ..r_construct import rule_protocol_dunders as _rule_dunders
+from ..r_round9 import rule_back_connection_guard as _r9_back
 
 LEVEL = 'other'
 
@@ -41,3 +42,4 @@ def run(ck, repo):
     _rule_hygiene(ck, repo, 'C13.H-dataflow-hygiene', 'C13')
     _rule_rollback(ck, repo, 'C13.D4-tentative-rollback', ['chython.algorithms.standardize.resonance:Resonance.fix_resonance'])
     _rule_dunders(ck, repo, 'C13.D0-container-protocols', ['chython.containers.molecule:MoleculeContainer'])
+    _r9_back(ck, repo, 'C13.D6-back-connection-guard')
